@@ -3671,7 +3671,7 @@ FINDINGS = [
     {"status": "fixed", "key": "history:replace-substitution-under-open-integral", "commit": "bc85788",
      "what": "ReplaceSubstitution rewrote the bound variable of an integral still to be evaluated: (x + 3) ^ 3 / 3 + (INT u. 1/2 * u ^ 2) "
              "became ... + (INT u. 1/2 * (2 * x + 1) ^ 2) (value changed)"},
-    {"status": "fixed", "key": "deriv-value:a ^ (D x. x ^ 2)", "commit": "fixes/C19-13.patch",
+    {"status": "fixed", "key": "deriv-value:a ^ (D x. x ^ 2)", "commit": "3c72e0d",
      "what": "deriv treated a sub-expression D x. f as constant in x (get_vars counts the variable of a derivative as bound): "
              "deriv(a ^ (D x. x ^ 2)) = 0, deriv(x * (D x. x ^ 2)) = D x. x ^ 2"},
     {"status": "known", "key": "normalize-idempotent:second-pass-changes-form-only",
